@@ -255,7 +255,10 @@ ChkApiRet(m, e, tr) ==
     (IF e.grid = [k \in 1..Len(m.rows) |-> m.rows[k].t] /\ e.ygrid = [k \in 1..Len(m.rows) |-> m.rows[k].y]
      THEN {} ELSE {"C03.RecordedRowsAreTheCommittedSteps", "C12.RecordedRowsAreTheCommittedSteps", "C13.RecordedRowsAreTheCommittedSteps"})
     \cup (IF e.paired /\ e.lenT = Len(e.grid) THEN {} ELSE {"C03.TimesAndStatesPaired", "C12.TimesAndStatesPaired"})
-    \cup (IF e.finite THEN {} ELSE {"C03.StoredValuesFinite", "C12.StoredValuesFinite"})
+    \cup (IF e.finite THEN {} ELSE {"C03.StoredValuesFinite", "C12.StoredValuesFinite", "C05.NoInaccurateStateRecorded"})
+    \cup (IF e.op = "integrate" /\ e.k \in SeqRange(tr.expectFail) /\ e.err = "none" THEN {"C05.ErrorRaisedWhenTolerancesCannotBeMet", "C12.ErrorRaisedWhenTolerancesCannotBeMet"} ELSE {})
+    \cup (IF e.op = "integrate" /\ e.k \in SeqRange(tr.expectFail) /\ e.err # "none" /\ "FailedToMeetTolerances" \notin SeqRange(e.chain)
+          THEN {"C05.FailureNamesTolerances", "C12.FailureCarriesOriginalCause"} ELSE {})
     \cup (IF e.dtypeOk THEN {} ELSE {"C03.PrecisionOfInitialState"})
     \cup (IF Len(e.grid) >= 1 /\ e.grid[1] = tr.t0 /\ e.ygrid[1] = m.y0 THEN {} ELSE {"C03.FirstRowIsInitial", "C13.FirstRowIsInitial"})
     \cup (IF e.y0Untouched THEN {} ELSE {"C13.CallerDataUntouched"})
